@@ -447,8 +447,8 @@ class Typed:
             elems[-1] = elems[0]
         if self.bias == 'simplify' and n >= 4 and elem == NUM:
             # aggregates over sets are folded when they hold several literals next to references
-            for i in r.sample(range(n), 2):
-                elems[i] = self.num_lit()
+            for j, i in enumerate(r.sample(range(n), 2)):
+                elems[i] = A.num(pick(r, ('1', '2', '3') if j else ('5', '7', '0.5', '10')))  # two different literals
             r.shuffle(elems)
         return ('set', tuple(elems))
 
